@@ -18,11 +18,57 @@ ASSUMPTIONS = [
 ]
 
 
+INST_TYPES = ["int", "double", "long long", "unsigned int", "size_t", "int32_t", "uint64_t", "std::string", "TypeID", "Class1"]
+INST_PARAMS = ["T a", "const T *p", "T &r", "const T &r", "T **pp", "T * const q"]
+
+
+def instantiation_verdict(only=None):
+    """Renderings of instantiated declarations: a template parameter replaced through Declaration.instantiate (what
+    generate.template_function does for every `cxx_template` entry) must render as the declaration with the type written in
+    place of T - read by the reference reader from both texts.  Enumerated (types x parameter shapes), no symbolic input."""
+    from shroud import ast, declast, typemap
+    from gen import refdecl
+    saved = getattr(declast, "global_namespace", None)
+    typemap.initialize()
+    lib = ast.LibraryNode()
+    lib.add_declaration("typedef int TypeID")
+    lib.add_declaration("class Class1")
+    n = 0
+    try:
+        for ty in INST_TYPES:
+            for par in INST_PARAMS:
+                if only and only != [ty, par]:
+                    continue
+                n += 1
+                node = lib.add_declaration("template<typename T> void fq%d(%s)" % (n, par), cxx_template=[ast.TemplateArgument("<%s>" % ty)])
+                new = node.ast.params[0].instantiate(node.template_arguments[0].asts[0])
+                text = new.gen_decl()
+                want = par.replace("T", ty, 1)
+                try:
+                    a = pe.ref_summary(refdecl.read(pe.real_tokens("void g(%s)" % text)))
+                except Exception as ex:
+                    return {"kernel": "instantiation", "type": ty, "param": par, "rendering": text,
+                            "what": "the rendering %r of parameter %r instantiated for %s cannot be read as a declaration (%s)" % (text, par, ty, str(ex)[:80])}, n
+                b = pe.ref_summary(refdecl.read(pe.real_tokens("void g(%s)" % want)))
+                if a != b:
+                    return {"kernel": "instantiation", "type": ty, "param": par, "rendering": text,
+                            "what": "the rendering %r of parameter %r instantiated for %s does not denote %r" % (text, par, ty, want)}, n
+    finally:
+        declast.global_namespace = saved
+    return None, n
+
+
 def main():
     tier, seed, rp = checklib.tier_and_seed()
     if rp:
         with open(rp) as f:
             w = json.load(f)
+        if w.get("kernel") == "instantiation":
+            v, _ = instantiation_verdict(only=[w["type"], w["param"]])
+            print("verdict:", v["what"] if v else "property holds on this input")
+            if v:
+                print("VIOLATION property=%s replay=%s" % (PID, rp))
+            return 1 if v else 0
         ok, detail = pe.confirm(PID, w)
         print(json.dumps(detail, indent=1, default=str))
         if ok:
@@ -32,6 +78,14 @@ def main():
         return 0
     rep = checklib.Report(PID)
     cov = pe.run_check(PID, tier, seed, rep)
+    try:
+        iv, ninst = instantiation_verdict()
+    except Exception as ex:
+        iv, ninst = None, 0
+        rep.inconc("instantiation kernel failed: %s: %s" % (type(ex).__name__, str(ex)[:200]))
+    if iv:
+        rep.violation(checklib.write_replay(PID, "instantiation", iv), iv["what"])
+    cov["instantiation_renderings_checked"] = ninst
     checklib.write_evidence(PID, tier, seed, "model_checking", cov, ASSUMPTIONS, rep.wall(), len(rep.violations))
     return rep.finish()
 
